@@ -219,6 +219,29 @@ def r04_4(prog: Program, rep):
                    "(missing delta base, corrupt object) leaves the earlier objects visible", loop.lineno)
     if n < 1:
         raise AnalysisError("no loop over a fallible pack iterator found in ingestion routines")
+    # the same discipline for every consumer of the lazy pack inflater outside the object stores (bundles): no add_object inside a
+    # loop that iterates PackInflater directly, and where objects are added from a materialised list the pack's trailer is verified
+    # (check()) before the first add
+    for m2 in prog.modules.values():
+        if m2.rel == OS_PY or not m2.rel.startswith("dulwich/") or m2.rel.startswith("dulwich/tests/"):
+            continue
+        for q, f in m2.funcs.items():
+            if "#" in q or "PackInflater" not in norm(f.node, 200000):
+                continue
+            g = cfg_of(prog, f)
+            adds = nodes_calling(g, lambda c: callee_name(c) == "add_object")
+            if not adds:
+                continue
+            lazy = [x for x in ast.walk(f.node) if isinstance(x, ast.For) and "PackInflater" in norm(x.iter)
+                    and any(isinstance(c, ast.Call) and callee_name(c) == "add_object" for c in ast.walk(x))]
+            mat = [i for i, nd in g.nodes.items() if any(isinstance(c, ast.Call) and callee_name(c) in ("list", "tuple") and c.args
+                                                         and "PackInflater" in norm(c.args[0]) for c in node_calls(nd))]
+            chk = nodes_calling(g, lambda c: isinstance(c.func, ast.Attribute) and c.func.attr in ("check", "check_length_and_checksum", "verify"))
+            ok = not lazy and bool(mat) and not must_pass(g, adds, mat) and bool(chk) and not must_pass(g, adds, chk)
+            n += 1
+            rep.ob("R04.4", m2.rel, f.qual, "pack trailer verified and every object materialised before the first add_object", ok,
+                   "objects are stored one by one while the pack is still being inflated and/or its checksum is never compared: a damaged "
+                   "pack (bundle) fails part-way and leaves the earlier objects in the store", (lazy[0].lineno if lazy else f.node.lineno))
     # the memory store commit: materialise first, then add
     mc = prog.func(OS_PY, "MemoryObjectStore.add_pack.<locals>.commit")
     g = cfg_of(prog, mc)
